@@ -13,11 +13,11 @@ from pgverif.monitors import schema as SM
 from pgverif.monitors import tree as TM
 
 TIERS = {
-    'quick': dict(shards=8, values=190, histories=25, steps=36),
+    'quick': dict(shards=8, values=190, histories=25, steps=44),
     # DESIGN.md asks for 16 x (8000 + 1000); a value costs ~30 ms (4 codecs + monitors) and a
     # history ~0.6 s (two file systems, every path re-read after every operation), so the
     # counts are scaled to stay below 10 min per shard.
-    'thorough': dict(shards=16, values=4000, histories=320, steps=50, timeout_s=9000),
+    'thorough': dict(shards=16, values=4000, histories=320, steps=60, timeout_s=9000),
 }
 RULE = ('value case = one described serializable value (primitives incl. special floats and '
         'hostile strings, tuples, plain/symbolic lists and dicts with str and int keys, '
@@ -28,16 +28,23 @@ RULE = ('value case = one described serializable value (primitives incl. special
         'equality (NaN-aware), type, pg.hash, tree_ok, schema_ok and a differential '
         'invalid-write monitor; non-trivial = the value has at least 2 description nodes, '
         'distinct by description. history case = one history of save/overwrite/rm/'
-        'writefile/sequence write+append operations over 6-9 paths on the standard file '
+        'writefile/sequence write+append operations, interleaved with reader handles that '
+        'stay open over later operations (pg.io.open read in pieces by read(n)/read()/'
+        'readline, open_jsonl/open_sequence readers iterated record by record, several per '
+        'path, closed late or never, writes directed at paths with an unclosed reader), '
+        'over 6-9 paths on the standard file '
         'system (fresh temp dir) and then on the in-memory one (incl. names that collide '
         'with the /mem/ prefix), checked after every operation against a path -> last '
         'value model through path_exists, readfile, pg.load, listdir/isdir and sequence '
-        'iteration; non-trivial = at least 8 successful writes with an overwrite and an '
+        'iteration (a path with an open reader is read back immediately after a write, '
+        'otherwise only now and then), and every read of an open handle against the content '
+        'its path had when it was opened; non-trivial = at least 8 successful writes with an overwrite and an '
         'append, distinct by (file system, operation sequence).')
 REQUIRED_COUNTERS = ['roundtrips', 'eq_checks', 'type_checks', 'hash_checks', 'tree_ok_evals',
                      'schema_ok_evals', 'invalid_writes_rejected', 'persist_ops',
                      'persist_content_checks', 'persist_load_checks',
-                     'persist_listdir_checks', 'persist_seq_checks']
+                     'persist_listdir_checks', 'persist_seq_checks',
+                     'persist_reader_checks', 'persist_writes_with_open_reader']
 ASSUMPTIONS = [
     'documented mappings are part of the oracle: from_json maps dict/list to pg.Dict/pg.List, '
     'partial values need allow_partial=True, a typed root container gets its spec back '
@@ -50,6 +57,11 @@ ASSUMPTIONS = [
     'the string form is layered over the object form: a value that already fails in object '
     'form is not reported again for the string form',
     'mechanism = codec + class of the greedily minimised value description',
+    'open handles: only readers are left open (the content of a path whose writer is not '
+    'closed is not "saved" yet: not generated); a reader is judged from its own position '
+    'against the content at the time it was opened until the path is written or removed '
+    '(then it is stale: read and closed, results not judged); a write/overwrite/append while '
+    'readers are open means the same as without them',
 ]
 
 CODECS = ['json', 'json-str', 'pickle', 'deepcopy']
@@ -449,10 +461,47 @@ def run_history(ctx, world, rng, steps):
   return ops, stats
 
 
-def gen_op(world, rng, c):
+def gen_reader_op(world, rng):
+  """Opens a reader and reads part of the path, continues reading on an open
+  reader, or closes one (None: nothing to read yet)."""
   r = rng.random()
+  if world.handles and r < 0.3:
+    return P.close_reader(rng.choice(world.handles))
+  if world.handles and r < 0.55:
+    h = rng.choice(world.handles)
+    return P.read_more(h, P.gen_read(rng, h))
+  readable = world.readable_paths()
+  if not readable or len(world.handles) >= 6:
+    return P.close_reader(rng.choice(world.handles)) if world.handles else None
+  busy = [(p, lv) for p, lv in readable if world.handles_of(p)]
+  path, level = rng.choice(busy if busy and rng.random() < 0.25 else readable)
+  api = 'io.open'
+  if level == 'seq':
+    api = ('open_sequence-raw' if world.seq_is_raw(path)
+           else rng.choice(['open_jsonl', 'open_sequence']))
+  e = world.seqs.get(path) if path in world.seqs else world.files.get(path)
+  content = e.items if level == 'seq' else (
+      e.content() if isinstance(e, P.SeqEntry) else e.content)
+  probe = P.Handle(path, level, api, None, content)
+  return P.open_reader(path, level, api, P.gen_read(rng, probe))
+
+
+def gen_op(world, rng, c):
+  target = None
+  if rng.random() < 0.24:
+    op = gen_reader_op(world, rng)
+    if op is not None:
+      return op
+  elif world.handles and rng.random() < 0.3:
+    # write to a path that has an unclosed reader
+    target = rng.choice(world.handles).path
+  r = rng.random()
+  if target is not None:
+    r = (0.0 if target in world.json_paths else 0.5 if target in world.txt_paths
+         else 0.57 if target in world.bin_paths else 0.9)
+  pick = lambda paths: target if target is not None else world.pick(rng, paths)
   if r < 0.42 or not (world.txt_paths and world.bin_paths and world.seq_paths):
-    path = world.pick(rng, world.json_paths)
+    path = pick(world.json_paths)
     if path is None:
       return P.mkdirs(world.base + '/spare')
     old = world.files.get(path)
@@ -464,11 +513,11 @@ def gen_op(world, rng, c):
     return P.save_json(path, d, indent=rng.choice([None, None, 2]),
                        method=rng.random() < 0.4)
   if r < 0.47:
-    return P.save_txt(world.pick(rng, world.txt_paths), P.text(rng))
+    return P.save_txt(pick(world.txt_paths), P.text(rng))
   if r < 0.55:
-    return P.writefile(world.pick(rng, world.txt_paths), P.text(rng))
+    return P.writefile(pick(world.txt_paths), P.text(rng))
   if r < 0.6:
-    return P.writefile_bytes(world.pick(rng, world.bin_paths), P.blob(rng))
+    return P.writefile_bytes(pick(world.bin_paths), P.blob(rng))
   if r < 0.67:
     existing = [p for p in world.all_file_paths() if p in world.files or p in world.seq_files()]
     if existing:
@@ -477,7 +526,7 @@ def gen_op(world, rng, c):
   if r < 0.7:
     return P.mkdirs(rng.choice(world.dir_universe()))
   # sequences
-  path = world.pick(rng, world.seq_paths)
+  path = pick(world.seq_paths)
   raw = world.seq_is_raw(path)
   n = rng.choice([0, 1, 1, 2, 3, 4])
   if raw:
